@@ -134,12 +134,17 @@ func scTransportChannel(r *Run) {
 	r.SetCfg("clients", nClients)
 
 	pki := NewPKI("ca")
-	srv := StartServer(r, n, ServerOpts{PKI: pki, Name: magicName, Hidden: hidden})
+	srv := StartServer(r, n, ServerOpts{PKI: pki, Name: magicName, Hidden: hidden, HSTimeout: 3 * time.Second})
 	secrets := [][]byte{magicPayload, []byte(magicName), append([]byte(nil), srv.Key.Public[:]...)}
 
 	// (d) confidentiality: scan everything the endpoints put on the wire
 	var genuinePkts []*Dgram
+	var handshakePkts []*Dgram // the clients' own handshake datagrams (the network may deliver late duplicates of them)
+	lateHandshakeDup := false
 	n.OnSend = func(d *Dgram) {
+		if len(d.Data) > 0 && (d.Data[0] == 0x01 || d.Data[0] == 0x03 || d.Data[0] == 0x05 || d.Data[0] == 0x08) && len(handshakePkts) < 16 {
+			handshakePkts = append(handshakePkts, d.clone())
+		}
 		if len(d.Data) >= 48 && (d.Data[0] == 0x10 || d.Data[0] == 0x80) && len(genuinePkts) < 300 {
 			genuinePkts = append(genuinePkts, d.clone())
 		}
@@ -345,6 +350,16 @@ func scTransportChannel(r *Run) {
 				}
 				s := sessions[r.Intn("atk", len(sessions))]
 				vs, _ := s.tc.C.VerifSession()
+				if len(handshakePkts) > 0 && r.Intn("atk", 8) == 0 {
+					// a late network duplicate of one of the handshake datagrams that established the sessions
+					g := handshakePkts[r.Intn("atk", len(handshakePkts))].clone()
+					g.Copy = 900
+					n.Redeliver(g, 0)
+					lateHandshakeDup = true
+					r.CountFault("late-duplicate-of-handshake-datagram", 1)
+					time.Sleep(time.Duration(r.Intn("atk", 50)) * time.Millisecond)
+					continue
+				}
 				if len(genuinePkts) > 0 && r.Intn("atk", 3) == 0 {
 					// cross-session / cross-direction injection of a GENUINE packet: delivered to the
 					// other end of its own session (wrong direction), or to another session with or
@@ -426,6 +441,9 @@ func scTransportChannel(r *Run) {
 			time.Sleep(rem)
 		}
 		time.Sleep(n.Cfg.ReplayMax + n.Cfg.LongDelay + 2*time.Second)
+		if lateHandshakeDup {
+			time.Sleep(4 * time.Second) // past the server's handshake timeout: whatever the duplicate started has expired
+		}
 	} else {
 		time.Sleep(2 * time.Second)
 	}
